@@ -14,8 +14,8 @@ use std::{collections::BTreeMap, fmt::Display};
 pub struct ValueSerializer;
 
 impl SerError for Error {
-    fn custom<T: Display>(_msg: T) -> Self {
-        todo!() // TODO implement this
+    fn custom<T: Display>(msg: T) -> Self {
+        Error::ser(msg.to_string())
     }
 }
 
